@@ -2,6 +2,7 @@
 C13 — Inline caches are transparent.
 -/
 import LaytheVerif.Model.Cache
+import LaytheVerif.Gen.CacheSites
 namespace LaytheVerif.C13
 open LaytheVerif.Cache
 
@@ -189,5 +190,29 @@ example :
                        method := fun c n => if n = "f" ∧ (c = 2 ∨ c = 3) then some (c * 100) else none }
     (runSite (invokeCached w "f") none [.inst 2 [], .inst 2 [], .inst 1 [5], .inst 3 [], .prim 9, .inst 2 []]).1 =
       [.callMethod 200, .callMethod 200, .callField 5, .callMethod 300, .propertyError, .callMethod 200] := by decide
+
+/-! ### [G] tie to cache.rs / ops.rs as they are now (regenerated by tools/translate.py) -/
+
+/-- Every cache getter answers `Some` only under `cache.class == class` — the guard `getCached`,
+`setCached`, `invokeCached` and `superCached` model. -/
+theorem C13_getters_guarded : ∀ g ∈ Gen.CacheSites.getters, g.2.2 = true := by
+  intro g hg
+  simp only [Gen.CacheSites.getters, List.mem_cons, List.not_mem_nil, or_false] at hg
+  rcases hg with h | h <;> subst h <;> rfl
+
+/-- The cache accessors each op uses, and the key each is given: the key a slot is filled with is
+the key it is checked against (receiver class for invoke/get/set, the popped super class for
+`op_super_invoke`), and only `op_invoke`/`op_get_prop_by_name` clear. -/
+theorem C13_uses_eq_gen : Gen.CacheSites.uses = [
+    ("op_invoke", "get_invoke_cache", ["inline_slot", "class"]),
+    ("op_invoke", "clear_invoke_cache", ["inline_slot"]),
+    ("op_invoke", "set_invoke_cache", ["inline_slot", "class", "method"]),
+    ("op_super_invoke", "get_invoke_cache", ["inline_slot", "super_class"]),
+    ("op_super_invoke", "set_invoke_cache", ["inline_slot", "super_class", "method"]),
+    ("op_set_prop_by_name", "get_property_cache", ["inline_slot", "class"]),
+    ("op_set_prop_by_name", "set_property_cache", ["inline_slot", "class", "property_slot as usize"]),
+    ("op_get_prop_by_name", "get_property_cache", ["inline_slot", "class"]),
+    ("op_get_prop_by_name", "set_property_cache", ["inline_slot", "class", "property_slot as usize"]),
+    ("op_get_prop_by_name", "clear_property_cache", ["inline_slot"])] := rfl
 
 end LaytheVerif.C13
